@@ -25,6 +25,9 @@ type c17Op struct {
 	Node   int                  `json:"node,omitempty"` // down/up
 	Hang     int                `json:"hang,omitempty"`     // update/delete/search: 1 + index of a server that hangs (never answers, never executes) for this request
 	Oversize int                `json:"oversize,omitempty"` // update: 1 + index into Points of a point whose merged document exceeds the size limit (its shard rejects its part of the batch)
+	// every established connection is reset while the cluster is idle, right before this
+	// request: its fan-out then meets dead cached rpc clients from several goroutines at once
+	ResetConns bool `json:"reset_conns,omitempty"`
 }
 
 type c17Params struct {
@@ -172,6 +175,9 @@ func (c17) Generate(r *rand.Rand, tier string) (sim.Config, any) {
 		case "up":
 			isDown = -1
 		case "update", "delete", "search":
+			if p.NServers >= 2 && isDown < 0 && r.IntN(5) == 0 {
+				p.Ops[i].ResetConns = true
+			}
 			if p.NServers >= 2 && isDown < 0 && p.Ops[i].Oversize == 0 && r.IntN(6) == 0 {
 				h := r.IntN(p.NServers)
 				if h != p.Ops[i].Entry {
@@ -314,6 +320,12 @@ func (c17) Execute(env *Env) {
 				}
 				down = ""
 				continue
+			}
+			if op.ResetConns && down == "" {
+				if k := net.ResetIdleConns(); k > 0 {
+					env.Stat("idle-connections-reset", k)
+					sim.Sleep(time.Second) // the rpc clients' reader goroutines see the reset
+				}
 			}
 			// the record lives on the user's home server; if that one is down nothing can be asked
 			c, ok := getCol(entry)
